@@ -193,7 +193,9 @@ def check(ctx, run):
         run.analysed(f)
         seq = []
         hooks = {"TestRegistry::getFirstTest": lambda *a_: 1000, ARR + "::" + op: lambda o=None, *a_: (seq.append((op, o) + tuple(x for x in a_ if isinstance(x, int))), 0)[1],
-                 ARR + "::getFirstTest": lambda o=None, *a_: (seq.append(("first", o)), 2000)[1], ARR + "::" + ("reverse" if op == "shuffle" else "shuffle"): lambda o=None, *a_: (seq.append(("other permutation", o)), 0)[1]}
+                 ARR + "::getFirstTest": lambda o=None, *a_: (seq.append(("first", o)), 2000)[1], ARR + "::" + ("reverse" if op == "shuffle" else "shuffle"): lambda o=None, *a_: (seq.append(("other permutation", o)), 0)[1],
+                 # (entry 0 of the array is its first test, whichever accessor reads it)
+                 ARR + "::get": lambda o=None, i_=None, *a_: (seq.append(("first" if i_ == 0 else "entry %s" % i_, o)), 2000 + i_)[1] if isinstance(i_, int) else None}
         ev = Evaluator(prog, f, env=dict({"tests_": 1000}, **{q["name"]: 4711 for q in f.params}), calls=hooks)
         ev.pass_object = "key"
         ev.optional_stubs = set(hooks)
